@@ -38,11 +38,17 @@ def run(rep, tier):
         rep.count("messages_checked", info["requests"])
 
     n = 2000 if tier == "quick" else 100000
-    core.run_hypothesis(rep, gen.case_strategy(build_case, 4096), body, n,
-                        describe=lambda c: v3hist.describe(c["cfg"], c["steps"]))
+    if core.run_hypothesis(rep, gen.case_strategy(build_case, 4096), body, n,
+                           describe=lambda c: v3hist.describe(c["cfg"], c["steps"])):
+        return
+    # sessions of the real clients that install their keys after discovery: every later request must be signed
+    v3hist.discovered_stage(rep, G, "C09", 120 if tier == "quick" else 2500, True, False,
+                            ("auth-flag-clear", "mac-", "flags", "user-name"))
 
 
 def replay(rep, case, body=None):
+    if case.get("_stage") == "discovered":
+        return v3hist.replay_discovered(rep, case)
     G = drivers.load()
     cfg, steps = v3hist.undescribe(case)
     try:
